@@ -327,6 +327,21 @@ class Frame:
         self.fn, self.locs, self.modname, self.closure, self.selfcls = fn, locs, modname, closure, selfcls
 
 
+class GenObj:
+    """A generator object of a repository generator function: its body runs when a consumer
+    drives it; each `yield v` calls the consumer's callback (internal-iterator reading of
+    for-loops, list(), tuple() ... over generators: exactly Python's order of effects as long
+    as the consumer exhausts the generator or leaves by break/return/raise)."""
+    def __init__(self, fv, fr):
+        self.fv, self.fr, self.started = fv, fr, False
+
+
+class _GenStop(Exception):
+    """consumer left the loop (break): unwinds the generator body"""
+    def __init__(self, gen):
+        self.gen = gen
+
+
 class Exec:
     """One instance per verified function variant; enumerates paths."""
 
@@ -667,7 +682,9 @@ class Exec:
             if isinstance(node, ast.Lambda):
                 return self.eval(node.body, fr)
             if _is_generator(node):
-                return self.world.make_generator(self, fv, fr)
+                if self.world.config.get("generator") is not None:
+                    return self.world.make_generator(self, fv, fr)
+                return GenObj(fv, fr)
             try:
                 self.exec_block(node.body, fr)
             except _Return as r:
@@ -675,6 +692,29 @@ class Exec:
             return None
         finally:
             self.depth -= 1
+
+    def drive(self, gen, callback):
+        """run the generator body to completion, calling callback(value) at each yield"""
+        if gen.started:
+            raise Unsupported("generator %s consumed twice / resumed" % gen.fv.qualname)
+        gen.started = True
+        gen.fr.yield_cb = callback
+        self.depth += 1
+        try:
+            try:
+                self.exec_block(gen.fv.node.body, gen.fr)
+            except _Return:
+                pass
+            except _GenStop as g:
+                if g.gen is not gen:
+                    raise
+        finally:
+            self.depth -= 1
+
+    def gen_items(self, gen):
+        out = []
+        self.drive(gen, lambda v: out.append(v))
+        return out
 
     def bind_args(self, fv, node, args, kwargs):
         a = node.args
@@ -961,6 +1001,36 @@ class Exec:
         if inv is not None:
             return inv.run(self, st, fr)
         it = self.eval(st.iter, fr)
+        if isinstance(it, GenObj):
+            def cb(x):
+                self.assign(st.target, x, fr)
+                try:
+                    self.exec_block(st.body, fr)
+                except _Break:
+                    raise _GenStop(it)
+                except _Continue:
+                    pass
+                return None
+            stopped = False
+            try:
+                if it.started:
+                    raise Unsupported("generator consumed twice")
+                it.started = True
+                it.fr.yield_cb = cb
+                self.depth += 1
+                try:
+                    self.exec_block(it.fv.node.body, it.fr)
+                except _Return:
+                    pass
+                finally:
+                    self.depth -= 1
+            except _GenStop as g:
+                if g.gen is not it:
+                    raise
+                stopped = True
+            if not stopped:
+                self.exec_block(st.orelse, fr)
+            return
         items = self.world.iterate(self, it)
         for x in items:
             self.assign(st.target, x, fr)
@@ -1226,6 +1296,9 @@ class Exec:
 
     def ev_Yield(self, e, fr):
         v = self.eval(e.value, fr) if e.value is not None else None
+        cb = getattr(fr, "yield_cb", None)
+        if cb is not None:
+            return cb(v)
         return self.world.on_yield(self, fr, v)
 
     def ev_NamedExpr(self, e, fr):
